@@ -137,7 +137,7 @@ def gen(seed, world=1, profile='c03', ntasks=None, rep_pct=0, nested=False, dont
     nstate = {g: 'fresh' for g in newt}        # fresh -> live -> dead
     if rounds is None: rounds = rng.choice([1, 1, 2, 3]) if profile != 'c04' else rng.choice([1, 2])
     s.feat = dict(profile=profile, world=world, ntp=ntp, rounds=rounds, rep_pct=rep_pct, nested=nested, dont_track=dont_track)
-    pending_flushed = set()
+    rounds_extra = []
     left = ntasks
 
     def usable(tp, exclude=()):
@@ -231,6 +231,11 @@ def gen(seed, world=1, profile='c03', ntasks=None, rep_pct=0, nested=False, dont
         flushed = []
         for tp in range(ntp):
             live = [g for g in per_tp[tp] if nstate.get(g) != 'dead']
+            if nest_active and tp == nest_tp:
+                # the inserting task may still be inserting: a flush of this taskpool's tiles would race with it.
+                # Only wait here; the tiles are flushed in a later round (an extra flush-only round at the end).
+                if last: rounds_extra.append(tp)
+                continue
             if last or rng.randrange(3) == 0:
                 s.ops.append(('flushall', tp)); flushed += [g for g in live if s.tiles[g][1] == 0]
                 for g in live:
@@ -246,6 +251,15 @@ def gen(seed, world=1, profile='c03', ntasks=None, rep_pct=0, nested=False, dont
                     if s.tiles[g][1] == 1: nstate[g] = 'dead'
         for tp in range(ntp): s.ops.append(('wait', tp))
         s.ops.append(('check', sorted(set(flushed))))
+    for tp in rounds_extra:
+        flushed = []
+        s.ops.append(('flushall', tp))
+        for g in per_tp[tp]:
+            if s.tiles[g][1] == 0: flushed.append(g)
+            elif nstate.get(g) != 'dead':
+                if nstate[g] == 'fresh': s.add_task(tp, [(g, W, 0)], place=-1); nstate[g] = 'live'
+                s.ops.append(('flush', g)); nstate[g] = 'dead'; flushed.append(g)
+        s.ops.append(('wait', tp)); s.ops.append(('check', sorted(set(flushed))))
     return s
 
 
